@@ -21,9 +21,11 @@ def is_scoped_template(template_typenames: Sequence[str],
     and if so, return what template from `template_typenames` and
     the corresponding index matches the scoped template correctly.
     """
+    # Only the leading component can name a template parameter:
+    # in `std::T` or `T::T` the later component is a member, not the parameter.
+    scope = str_arg_typename.split("::")[0]
     for idx, template in enumerate(template_typenames):
-        if "::" in str_arg_typename and \
-            template in str_arg_typename.split("::"):
+        if "::" in str_arg_typename and template == scope:
             return template, idx
     return False, -1
 
@@ -122,9 +124,8 @@ def instantiate_type(
         instantiation = deepcopy(instantiations[scoped_idx])
         # Replace the part of the template with the instantiation
         instantiation.name = "::".join(
-            scoped_instantiation_name(instantiation
-                                      ) if part == scoped_template else part
-            for part in ctype.typename.qualified_name().split("::"))
+            [scoped_instantiation_name(instantiation)] +
+            ctype.typename.qualified_name().split("::")[1:])
         if isinstance(ctype, parser.TemplatedType):
             # Keep the template parameters as they are written (const, &, *)
             return parser.TemplatedType(
